@@ -61,7 +61,10 @@ const (
 
 var classes = []string{clNone, clEmpty, clScheme, clExtra, clUnknown, clRevoked, clUser, clAdmin}
 
-type point struct{ Auth, Prof, Metrics bool }
+type point struct {
+	Auth, Prof, Metrics bool
+	DebugLog            bool // logging.level = debug (gin in debug mode while the engine is built): the default of a deployment
+}
 
 func onoff(b bool) string {
 	if b {
@@ -71,7 +74,11 @@ func onoff(b bool) string {
 }
 
 func (p point) String() string {
-	return fmt.Sprintf("auth=%s,prof=%s,metrics=%s", onoff(p.Auth), onoff(p.Prof), onoff(p.Metrics))
+	s := fmt.Sprintf("auth=%s,prof=%s,metrics=%s", onoff(p.Auth), onoff(p.Prof), onoff(p.Metrics))
+	if p.DebugLog {
+		s += ",loglevel=debug"
+	}
+	return s
 }
 
 // calls counts repository calls made while one request is served (single goroutine:
@@ -847,8 +854,9 @@ func (e *env) runPoint() {
 	e.calls = &calls{}
 	var ws websocket.Server
 	opts := rig.Options{
-		Dir:  r.Scratch,
-		Name: "c09.db",
+		Dir:      r.Scratch,
+		Name:     "c09.db",
+		DebugLog: e.p.DebugLog,
 		Config: func(c *config.AppConfig) {
 			c.HTTP.UseAuth = e.p.Auth
 			c.HTTP.ProfilingEndpointsEnabled = e.p.Prof
@@ -956,7 +964,7 @@ func (e *env) runPoint() {
 }
 
 func body(r *ev.Run) {
-	r.Rule("for each of the 8 configuration points {use_auth} x {profiling endpoints} x {metrics}: the real engine is built (metrics-on points in cmd/main.go's order), its routing table engine.Routes() is enumerated at run time; every route under /api/v1 x 1..3 parameter fillings (path parameters from the stored forked history / issued tokens: valid, stale, unknown; bodies and queries valid JSON that a handler would act on) x every representative of the 8 credential classes is requested; every other route is matched against the allow-list. evaluations = requests + allow-list decisions; distinct = distinct (configuration, method, route, credential shape, filling shape); non-trivial = requests that must be refused (auth on, class not in {valid user, admin}, or valid user on an admin route), each with a digest comparison of headers/tokens/webhooks and a repository-call count around it. The route x class x configuration product is exhaustive; thorough adds 50 random malformed Authorization values per API route and configuration.")
+	r.Rule("for each of the 8 configuration points {use_auth} x {profiling endpoints} x {metrics} plus 2 points with logging.level = debug (gin in debug mode while the engine is built, as in a default deployment) x {profiling endpoints}: the real engine is built (metrics-on points in cmd/main.go's order), its routing table engine.Routes() is enumerated at run time; every route under /api/v1 x 1..3 parameter fillings (path parameters from the stored forked history / issued tokens: valid, stale, unknown; bodies and queries valid JSON that a handler would act on) x every representative of the 8 credential classes is requested; every other route is matched against the allow-list. evaluations = requests + allow-list decisions; distinct = distinct (configuration, method, route, credential shape, filling shape); non-trivial = requests that must be refused (auth on, class not in {valid user, admin}, or valid user on an admin route), each with a digest comparison of headers/tokens/webhooks and a repository-call count around it. The route x class x configuration product is exhaustive; thorough adds 50 random malformed Authorization values per API route and configuration.")
 	r.Assume(
 		"admin routes = POST /api/v1/access and DELETE /api/v1/access/:token (from the statement)",
 		"'handler logic ran' is observed as a call of the headers repository, a write call of the tokens repository or any call of the webhooks repository while a refused request is served (token look-ups belong to the middleware)",
@@ -966,9 +974,9 @@ func body(r *ev.Run) {
 	)
 	r.Exhaustive(true)
 	if r.Only == "" {
-		r.Require("configurations", 8)
-		r.Require("api_routes_enumerated", 8*10)
-		r.Require("admin_routes_enumerated", 8*2)
+		r.Require("configurations", 10)
+		r.Require("api_routes_enumerated", 10*10)
+		r.Require("admin_routes_enumerated", 10*2)
 		r.Require("requests_refused_class", 800)
 		r.Require("admin_route_requests_with_user_token", 8)
 		r.Require("requests_auth_off", 1000)
@@ -980,7 +988,7 @@ func body(r *ev.Run) {
 	for _, auth := range []bool{true, false} {
 		for _, prof := range []bool{false, true} {
 			for _, met := range []bool{false, true} {
-				p := point{auth, prof, met}
+				p := point{Auth: auth, Prof: prof, Metrics: met}
 				caseID := "cfg/" + p.String()
 				r.Do(caseID, func() {
 					e := &env{r: r, p: p, case0: caseID}
@@ -988,5 +996,14 @@ func body(r *ev.Run) {
 				})
 			}
 		}
+	}
+	// logging.level = debug (a deployment's default; the engine is then built with gin in debug mode)
+	for _, prof := range []bool{false, true} {
+		p := point{Auth: true, Prof: prof, Metrics: false, DebugLog: true}
+		caseID := "cfg/" + p.String()
+		r.Do(caseID, func() {
+			e := &env{r: r, p: p, case0: caseID}
+			e.runPoint()
+		})
 	}
 }
